@@ -1787,12 +1787,43 @@ macro_rules! vec_impl_vec {
         /// Consuming iterator over this module's vector type.
         // Can't (De)Serialize a ManuallyDrop<T>
         //#[cfg_attr(feature="serde", derive(Serialize, Deserialize))]
-        #[derive(Debug, Hash, PartialEq, Eq)]
         pub struct IntoIter<T> {
             // NOTE: Use a CVec and not $Vec; repr_simd vectors can't monomorphize ManuallyDrop<T>.
             vector: CVec<ManuallyDrop<T>>,
             start: usize,
             end: usize,
+        }
+
+        impl<T> IntoIter<T> {
+            // The elements that weren't yielded yet. All other slots are logically moved-out and must never be read.
+            #[inline]
+            fn remaining(&self) -> &[ManuallyDrop<T>] {
+                &self.vector[self.start .. self.end]
+            }
+        }
+
+        // NOTE: These can't be derived; the derived impls would read elements that were already yielded.
+        impl<T: fmt::Debug> fmt::Debug for IntoIter<T> {
+            fn fmt(&self, f: &mut Formatter) -> fmt::Result {
+                f.debug_struct("IntoIter")
+                    .field("remaining", &self.remaining())
+                    .field("start", &self.start)
+                    .field("end", &self.end)
+                    .finish()
+            }
+        }
+        impl<T: PartialEq> PartialEq for IntoIter<T> {
+            fn eq(&self, other: &Self) -> bool {
+                self.start == other.start && self.end == other.end && self.remaining() == other.remaining()
+            }
+        }
+        impl<T: Eq> Eq for IntoIter<T> {}
+        impl<T: std::hash::Hash> std::hash::Hash for IntoIter<T> {
+            fn hash<H: std::hash::Hasher>(&self, state: &mut H) {
+                self.remaining().hash(state);
+                self.start.hash(state);
+                self.end.hash(state);
+            }
         }
 
         // NOTE: Be careful to only drop elements that weren't yielded.
